@@ -500,6 +500,11 @@ func (b *builder) drawFaults(nSites int, allowPreempt bool) {
 		}
 		b.sc.Perm = simrt.PermSpec{Mode: pick(r, []string{simrt.PermReverse, simrt.PermRandom, simrt.PermRotate}), Seed: r.next(), K: 1 + r.intn(3), Sites: s}
 	}
+	// simulated process environment (only matters if the tree reads a clock,
+	// the environment, the pid or a random source: latent seams)
+	if r.chance(0.6) {
+		b.sc.EnvSeed = r.next() | 1
+	}
 	// pool behaviour (only matters if the tree uses sync.Pool: latent seam)
 	if r.chance(0.5) {
 		b.sc.PoolSeed = r.next() | 1
